@@ -1,12 +1,19 @@
 (** C12 — errors are classified and located truthfully (partial: the rendered message and the
     classification of search errors are decided by correspondence).
     Statements only. *)
-From JP Require Import Base F64 Value Sig Functions Interp Lexer Parser Wire Proofs.CallProof Proofs.ErrProof Proofs.InterpFacts Proofs.ParseErrProof.
+From JP Require Import Base F64 Value Sig Functions Interp Lexer Parser Wire Proofs.CallProof Proofs.ErrProof Proofs.InterpFacts Proofs.ParseErrProof Proofs.SearchErrProof.
 
 (** Every failure of compile is a parse error: the lexer (incl. the embedded JSON reader) and the parser only ever build parse errors. *)
 Theorem C12_compile_errors_are_parse_errors : forall s e, parse s = Err e -> exists p, e = EParse p.
 Proof. exact compile_errors_are_parse_errors. Qed.
 Print Assumptions C12_compile_errors_are_parse_errors.
+
+(** Every failure of search is a runtime error — or the recorded parse-class error that functions.rs fabricates
+    for non-finite numeric results (known finding) — for all trees, documents, registries and fuel. *)
+Theorem C12_search_errors_are_runtime_errors : forall n rt a d e,
+  search_ast n rt a d = Err e -> (exists k o, e = ERuntime k o) \/ e = EFabricated.
+Proof. exact search_errors_are_runtime_errors. Qed.
+Print Assumptions C12_search_errors_are_runtime_errors.
 
 (** For any offset on a character boundary the reported line and column are the
     zero-based line and character column of that offset, for any mix of newlines
